@@ -159,6 +159,14 @@ func checkC04E2E(c C04Conf, o *vcore.Obs) error {
 	if err := put("live", liveTS, false); err != nil {
 		return err
 	}
+	// a live entry older than the expired marker's time: the (stale) marker from the peer must still delete it
+	oldLiveTS := expiredTS.Add(-24 * time.Hour)
+	haveOldLive := haveExpired && oldLiveTS.UnixNano() > 0
+	if haveOldLive {
+		if err := put("oldlive", oldLiveTS, false); err != nil {
+			return err
+		}
+	}
 	swp := sweeper.New(DBName, sw, env.Env, logrus.StandardLogger(), true)
 	if err := swp.VerifSweepOnce(context.Background()); err != nil {
 		return fmt.Errorf("sweep: %v", err)
@@ -187,12 +195,34 @@ func checkC04E2E(c C04Conf, o *vcore.Obs) error {
 		{Key: []byte("expired"), TS: uint64(maxI64(expiredTS.UnixNano(), 1)), Flags: 1},
 		{Key: []byte("young2"), TS: uint64(now.Add(-time.Second).UnixNano()), Flags: 1},
 	}}}}
+	if haveOldLive {
+		snap.DBIs[0].Entries = append(snap.DBIs[0].Entries, model.KV{Key: []byte("oldlive"), TS: uint64(expiredTS.UnixNano()), Flags: 1})
+	}
 	upd := MkUpdate(snap, now)
 	if _, _, err := s.LoadOnce(context.Background(), env.Env, "peer", upd, header.TxnID(lm.LastTxnID(env.Env))); err != nil {
 		return fmt.Errorf("LoadOnce: %v", err)
 	}
 	if haveExpired && present("expired") {
 		return fmt.Errorf("swept marker (age retention+%v) was re-created from a peer snapshot: retention=%v minus-cutoff=%v", time.Duration(c.AgeOverNs), r, sw.RetentionDurationMinusCutoff())
+	}
+	if haveOldLive {
+		var stillLive bool
+		_ = env.View(func(txn *lmdb.Txn) error {
+			dbi, err := txn.OpenDBI("d", 0)
+			if err != nil {
+				return nil
+			}
+			v, err := txn.Get(dbi, []byte("oldlive"))
+			if err == nil {
+				if h, herr := model.ReadHeader(v); herr == nil && h.Flags&1 == 0 {
+					stillLive = true
+				}
+			}
+			return nil
+		})
+		if stillLive {
+			return fmt.Errorf("a deletion at T (older than the load cutoff) arrived for a key whose stored live version is older than T, but the key is still live: deletions must win against older versions whatever the sweeper settings")
+		}
 	}
 	if !present("young2") {
 		return fmt.Errorf("a one second old marker was refused as stale: retention=%v minus-cutoff=%v", r, sw.RetentionDurationMinusCutoff())
